@@ -151,6 +151,44 @@ def enum_units(tier, seed):
                                                                              {"k": "data", "d": "dl", "es": [["id", "kx_r"]]}]
                     wrap = body if ctx == "root" else [{"k": "block", "b": body}] if ctx == "block" else [{"k": "scope", "n": "sc_r", "b": body}]
                     cases.append({"rom": "low", "files": {}, "ir": [{"k": "org", "a": 0x018000}] + wrap + sp("lb_end")})
+    # the names an .incbin defines (start address, size) are definitions of their scope like labels: an unsized operand that
+    # uses such a name before the directive, while a constant of the same name exists further out, is not sized with that
+    # constant and emitted with the file's address / size (rejected, or sized and emitted alike)
+    for sym, outer_v, flen in (("bin9_dat", 0x12, 3), ("bin9_dat", 0x123456, 3), ("bin9_dat__size", 0x1234, 3), ("bin9_dat__size", 0x12, 300), ("bin9_dat__size", 0x123456, 5)):
+        for ctx in ("root", "block", "named", "loop", "macro"):
+            for where in ("before", "after"):
+                use = [lda(["id", sym])] + sp("lb_mid")
+                inc = [{"k": "incbin", "f": "bin9.dat"}]
+                body = (use + inc if where == "before" else inc + use) + [{"k": "data", "d": "dl", "es": [["id", sym]]}]
+                if ctx == "root":
+                    wrap = body
+                elif ctx == "block":
+                    wrap = [{"k": "block", "b": body}]
+                elif ctx == "named":
+                    wrap = [{"k": "scope", "n": "sc_r", "b": body}]
+                elif ctx == "loop":
+                    wrap = [{"k": "for", "v": "i_0", "lo": ["lit", 0, "d"], "hi": ["lit", 2, "d"], "b": body}]
+                else:
+                    wrap = [{"k": "macro", "n": "m_w", "ps": [], "b": body}, {"k": "call", "n": "m_w", "args": []}]
+                cases.append({"rom": "low", "files": {"bin9.dat": {"pat": [7, flen]}},
+                              "ir": [{"k": "const", "n": sym, "e": L(outer_v), "eager": True}, {"k": "org", "a": 0x018000}] + wrap + sp("lb_end")})
+    # a name that an inner scope reads while the program is expanded (an .if condition, a macro argument, a := value) and then
+    # uses in an unsized operand, while its binding changes later in the source: the enclosing scope assigns the := constant
+    # again, or defines the name as a label / with `=` after the inner scope (what was looked up early is not what counts later)
+    mp_ = {"k": "macro", "n": "m_p", "ps": ["p_px"], "b": [{"k": "data", "d": "db", "es": [["bin", "&", ["id", "p_px"], L(0xFF)]]}]}
+    for early in ("if", "arg", "assign"):
+        for later in ("reassign", "label", "late"):
+            for v0, v1 in ((0x12, 0x1234), (0x1234, 0x12), (0x12, 0x123456)):
+                rd = {"if": {"k": "if", "c": ["id", "kx_w"], "t": [{"k": "data", "d": "db", "es": [L(1)]}], "e": None},
+                      "arg": {"k": "call", "n": "m_p", "args": [["id", "kx_w"]]},
+                      "assign": {"k": "const", "n": "kx_j", "e": ["bin", "+", ["id", "kx_w"], L(1)], "eager": True}}[early]
+                inner = [rd, lda(["id", "kx_w"])] + sp("lb_mid")
+                after = {"reassign": [{"k": "const", "n": "kx_w", "e": L(v1), "eager": True}], "label": [{"k": "label", "n": "kx_w"}, {"k": "data", "d": "db", "es": [L(0x5A)]}],
+                         "late": [{"k": "const", "n": "kx_w", "e": L(v1), "eager": False}]}[later]
+                for ctx in ("block", "block-block", "named"):
+                    nest = [{"k": "block", "b": inner}] if ctx == "block" else [{"k": "block", "b": [{"k": "block", "b": inner}]}] if ctx == "block-block" else [{"k": "scope", "n": "sc_w", "b": inner}]
+                    outer = nest + after if later == "reassign" else [{"k": "block", "b": nest + after}]
+                    cases.append({"rom": "low", "files": {}, "ir": [{"k": "const", "n": "kx_w", "e": L(v0), "eager": True}, {"k": "org", "a": 0x018000}, mp_] + outer + sp("lb_end")})
     # a qualified name that an outer named scope already exports when it is first evaluated (label pass) and that a nearer
     # scope of the same name (defined later, inside the enclosing block / scope / loop / macro) must win at emission
     def named(body):
